@@ -426,7 +426,7 @@ func c18SingleReference(c *core.Ctx, p *progFacts) {
 			}
 		}
 	}
-	c.Floor("T/single-reference", n, 5)
+	c.Floor("T/single-reference", n, 3)
 }
 
 // c18WidthGuards: splitters compare query and target widths and report a mismatch.
@@ -509,7 +509,7 @@ func c18SuffixSwitches(c *core.Ctx) {
 	}
 	check("cmd", "")
 	check("pkg/variants", "Variants")
-	c.Floor("T/suffix-switch", n, 5)
+	c.Floor("T/suffix-switch", n, 3)
 }
 
 func baseName(p string) string {
@@ -574,14 +574,14 @@ func C18(c *core.Ctx) {
 	nsel, nbare := checkWaits(c, p, "B3")
 	c.Count("blocking_selects", nsel)
 	c.Count("bare_receives", nbare)
-	c.Floor("B3/selects", nsel, 30)
-	c.Floor("B3/bare-receives", nbare, 5)
+	c.Floor("B3/selects", nsel, 20)
+	c.Floor("B3/bare-receives", nbare, 3)
 	n := droppedInternalErrors(c, p, "B2/call")
 	c.Count("internal_error_call_sites", n)
-	c.Floor("B2/call", n, 40)
+	c.Floor("B2/call", n, 28)
 	ns := errorSendsReachCaller(c, p, "B2")
 	c.Count("error_sends", ns)
-	c.Floor("B2/sends", ns, 60)
+	c.Floor("B2/sends", ns, 40)
 	checkExecuteExits(c, "B2/cmd.Execute")
 	c18SingleReference(c, p)
 	c18WidthGuards(c)
